@@ -7,6 +7,7 @@ driver verifies such a solution for every generated instance).  (gd, hd) is any 
 equation of the returned policy, so gd is that policy's long-run average reward.
 -/
 import MdpaxV.Props.C01
+import MdpaxV.Theory.Existence
 set_option linter.unusedSectionVars false
 namespace MdpaxV.C04
 open MdpaxV
@@ -153,5 +154,65 @@ theorem rvi_values_bounded (hv : C02.Valid P c) (hA : 0 < P.nA) (hst : Stoch P)
     rw [hvals, toFn_map P.nS _ hswl, sweep_list_eq_Top P c hv 1 sm.values hlen 0, toFn_ofFn, hgain]
   have := rvi_bounded (Top P 1) hT h g hg r (fun m => toFn P.nS (iterState (rviStep P c 1 ε) m s).values) hrec n i
   simpa [iterState] using this
+
+/-! ### what `g` and `gd` are: long-run averages of finite-horizon values, with `g` optimal among all policies
+
+No limit is needed: the statements bound the n-step values for every n in any ordered field. -/
+
+/-- **the gain of a solution of the optimality equation is the optimal long-run average reward**: the optimal expected total
+    reward over `n` steps from state `i` (terminal reward `V`), i.e. the n-fold iterate of the optimality operator, is
+    `n·g + h(i)` up to the fixed offsets `min(V − h)` and `max(V − h)` — per step it tends to `g` with error `≤ (‖h‖-terms)/n` -/
+theorem gain_is_nstep_average (hv : C02.Valid P c) (hA : 0 < P.nA) (hst : Stoch P)
+    (h : Fin P.nS → α) (g : α) (hg : ∀ i, Top P 1 h i = h i + g) (V : Fin P.nS → α) (n : Nat) (i : Fin P.nS) :
+    haveI : Nonempty (Fin P.nS) := ⟨⟨0, hv.1⟩⟩
+    h i + n * g + vmin (fun j => V j - h j) ≤ (Top P 1)^[n] V i ∧
+    (Top P 1)^[n] V i ≤ h i + n * g + vmax (fun j => V j - h j) := by
+  haveI : Nonempty (Fin P.nS) := ⟨⟨0, hv.1⟩⟩
+  exact nstep_bracket (Top P 1) (Top_monoShift P 1 (by norm_num) hst hv.1 hA) h g hg V n i
+
+/-- the same for a fixed policy: `gd` is the long-run average reward of the policy whose evaluation equation `(gd, hd)` solves -/
+theorem policy_gain_is_nstep_average (hv : C02.Valid P c) (hst : Stoch P)
+    (pol : Fin P.nS → Nat) (hpol : ∀ i, pol i < P.nA)
+    (hd : Fin P.nS → α) (gd : α) (hgd : ∀ i, Tpol P 1 pol hd i = hd i + gd) (V : Fin P.nS → α) (n : Nat) (i : Fin P.nS) :
+    haveI : Nonempty (Fin P.nS) := ⟨⟨0, hv.1⟩⟩
+    hd i + n * gd + vmin (fun j => V j - hd j) ≤ (Tpol P 1 pol)^[n] V i ∧
+    (Tpol P 1 pol)^[n] V i ≤ hd i + n * gd + vmax (fun j => V j - hd j) := by
+  haveI : Nonempty (Fin P.nS) := ⟨⟨0, hv.1⟩⟩
+  exact nstep_bracket (Tpol P 1 pol) (Tpol_monoShift P 1 (by norm_num) hst hv.1 pol hpol) hd gd hgd V n i
+
+/-- no policy has a larger long-run average reward than `g` -/
+theorem optimal_gain_dominates (hv : C02.Valid P c) (hA : 0 < P.nA) (hst : Stoch P)
+    (h : Fin P.nS → α) (g : α) (hg : ∀ i, Top P 1 h i = h i + g)
+    (pol : Fin P.nS → Nat) (hpol : ∀ i, pol i < P.nA)
+    (hd : Fin P.nS → α) (gd : α) (hgd : ∀ i, Tpol P 1 pol hd i = hd i + gd) : gd ≤ g := by
+  haveI : Nonempty (Fin P.nS) := ⟨⟨0, hv.1⟩⟩
+  have hb := (bracket (Tpol P 1 pol) (Tpol_monoShift P 1 (by norm_num) hst hv.1 pol hpol) hd gd hgd h).2
+  refine le_trans hb (vmax_le (fun i => ?_))
+  have := Tpol_le_Top P 1 hA pol hpol h i
+  rw [hg i] at this; linarith
+
+/-- the gain of the optimality equation is unique (whatever the bias) -/
+theorem optimal_gain_unique (hv : C02.Valid P c) (hA : 0 < P.nA) (hst : Stoch P)
+    (h h' : Fin P.nS → α) (g g' : α) (hg : ∀ i, Top P 1 h i = h i + g) (hg' : ∀ i, Top P 1 h' i = h' i + g') : g = g' := by
+  haveI : Nonempty (Fin P.nS) := ⟨⟨0, hv.1⟩⟩
+  have hT := Top_monoShift P 1 (by norm_num) hst hv.1 hA
+  have hb := bracket (Top P 1) hT h g hg h'
+  have e : (fun i => Top P 1 h' i - h' i) = fun _ => g' := by funext i; rw [hg' i]; ring
+  rw [e, vmin_const, vmax_const] at hb
+  exact le_antisymm hb.2 hb.1
+
+/-- **whole `solve()` call, against every policy**: on reported convergence the returned policy's long-run average reward is
+    within ε of that of *every* stationary deterministic policy (that has an evaluation solution) -/
+theorem rvi_solve_beats_every_policy (hv : C02.Valid P c) (hA : 0 < P.nA) (hst : Stoch P) (f k : Nat)
+    (s : SState α) (hs : s.values.length = P.nS) (hinv : s.gain = (s.values.getLast?).getD 0)
+    (hc : (rviSolve P c 1 ε f k s).converged = true)
+    (h : Fin P.nS → α) (g : α) (hg : ∀ i, Top P 1 h i = h i + g)
+    (pl : List Nat) (hpl : (rviSolve P c 1 ε f k s).state.policy = some pl)
+    (hdv : Fin P.nS → α) (gd : α) (hgd : ∀ i, Tpol P 1 (C01.polFn P.nS pl) hdv i = hdv i + gd)
+    (pol' : Fin P.nS → Nat) (hpol' : ∀ i, pol' i < P.nA)
+    (hd' : Fin P.nS → α) (gd' : α) (hgd' : ∀ i, Tpol P 1 pol' hd' i = hd' i + gd') : gd' - gd < ε := by
+  have h1 := (rvi_solve_converged P c ε hv hA hst f k s hs hinv hc h g hg pl hpl hdv gd hgd).2.2.2
+  have h2 := optimal_gain_dominates P c hv hA hst h g hg pol' hpol' hd' gd' hgd'
+  linarith
 
 end MdpaxV.C04
